@@ -9,17 +9,17 @@
    seed / reference tensor / flags -- must be reproduced by every later call, whatever its batch size or co-batched examples. *)
 EXTENDS DLSBook, Json, IOUtils
 Trace == ndJsonDeserialize(IOEnv.TRACE_FILE)
-VARIABLES l, bad, cid, ex, R, refmode, key, rk, memo
-tvars == <<vars, l, bad, cid, ex, R, refmode, key, rk, memo>>
+VARIABLES l, bad, cid, ex, R, refmode, key, rk, memo, memoR
+tvars == <<vars, l, bad, cid, ex, R, refmode, key, rk, memo, memoR>>
 E == Trace[l]
-Keep == UNCHANGED <<bad, cid, ex, R, refmode, key, memo>>
+Keep == UNCHANGED <<bad, cid, ex, R, refmode, key, memo, memoR>>
 
 TCall == /\ E.ev = "call" /\ pc \in {"idle", "skip"}
          /\ N' = Len(E.ex) /\ S' = E.S /\ B' = E.B
          /\ i' = 0 /\ Xi' = <<>> /\ rj' = <<>> /\ queue' = <<>> /\ z' = 0
          /\ emitted' = <<>> /\ batches' = <<>> /\ seeds' = <<>> /\ pc' = "fill"
          /\ cid' = E.id /\ ex' = E.ex /\ R' = E.R /\ refmode' = E.refmode /\ key' = E.key /\ rk' = 0
-         /\ l' = l + 1 /\ UNCHANGED <<bad, memo>>
+         /\ l' = l + 1 /\ UNCHANGED <<bad, memo, memoR>>
 Silent == /\ pc \in {"fill", "drain"} /\ (Fill \/ Drain) /\ UNCHANGED <<l, rk>> /\ Keep
 RefReason == IF pc # "flush" THEN "reference generator called outside a batch"
              ELSE IF refmode # "fn" THEN "reference generator called although a reference tensor was given"
@@ -47,16 +47,31 @@ TReturn == /\ E.ev = "return" /\ RetReason = ""
            /\ memo' = [p \in DOMAIN memo \cup { <<ex[k], key>> : k \in 1..N } |->
                           IF p \in DOMAIN memo THEN memo[p] ELSE E.dig[CHOOSE k \in 1..N : ex[k] = p[1]]]
            /\ pc' = "idle" /\ l' = l + 1 /\ rk' = 0
-           /\ UNCHANGED <<N, S, B, i, Xi, rj, queue, z, emitted, batches, seeds, bad, cid, ex, R, refmode, key>>
+           /\ UNCHANGED <<N, S, B, i, Xi, rj, queue, z, emitted, batches, seeds, bad, cid, ex, R, refmode, key, memoR>>
+\* observable lane with the REAL dinucleotide_shuffle reference generator: an "obs" event carries, per example, the digest of
+\* its attributions and of the references that were used; both must be reproduced under every batching / subset / order
+ObsReason == IF E.st # "ok" THEN "raised on a valid call"
+             ELSE IF \E k \in DOMAIN E.ex : <<E.ex[k], E.key>> \in DOMAIN memoR /\ memoR[<<E.ex[k], E.key>>] # E.rdig[k]
+                  THEN "shuffle j of an example is not the same sequence in every batching"
+             ELSE IF \E k \in DOMAIN E.ex : <<E.ex[k], E.key>> \in DOMAIN memo /\ memo[<<E.ex[k], E.key>>] # E.dig[k]
+                  THEN "attribution of an example depends on batch size, co-batched examples or order"
+             ELSE ""
+Upd(m, vals) == [p \in DOMAIN m \cup { <<E.ex[k], E.key>> : k \in DOMAIN E.ex } |->
+                    IF p \in DOMAIN m THEN m[p] ELSE vals[CHOOSE k \in DOMAIN E.ex : E.ex[k] = p[1]]]
+TObs == /\ E.ev = "obs" /\ pc \in {"idle", "skip"}
+        /\ bad' = IF ObsReason = "" THEN bad ELSE Append(bad, <<E.id, ObsReason>>)
+        /\ memo' = IF E.st = "ok" THEN Upd(memo, E.dig) ELSE memo
+        /\ memoR' = IF E.st = "ok" THEN Upd(memoR, E.rdig) ELSE memoR
+        /\ l' = l + 1 /\ UNCHANGED <<vars, cid, ex, R, refmode, key, rk>>
 Reason == CASE E.ev = "ref" -> RefReason [] E.ev = "forward" -> FwdReason [] E.ev = "return" -> RetReason [] OTHER -> ""
-TBad == /\ pc \notin {"skip", "fill", "drain"} /\ E.ev # "call" /\ Reason # ""
+TBad == /\ pc \notin {"skip", "fill", "drain"} /\ E.ev \notin {"call", "obs"} /\ Reason # ""
         /\ bad' = Append(bad, <<cid, Reason>>) /\ pc' = "skip" /\ l' = l + 1 /\ rk' = 0
-        /\ UNCHANGED <<N, S, B, i, Xi, rj, queue, z, emitted, batches, seeds, cid, ex, R, refmode, key, memo>>
-TSkip == /\ pc = "skip" /\ E.ev # "call" /\ l' = l + 1 /\ UNCHANGED <<vars, rk>> /\ Keep
-TraceNext == l <= Len(Trace) /\ (TCall \/ Silent \/ TRef \/ TForward \/ TReturn \/ TBad \/ TSkip)
+        /\ UNCHANGED <<N, S, B, i, Xi, rj, queue, z, emitted, batches, seeds, cid, ex, R, refmode, key, memo, memoR>>
+TSkip == /\ pc = "skip" /\ E.ev \notin {"call", "obs"} /\ l' = l + 1 /\ UNCHANGED <<vars, rk>> /\ Keep
+TraceNext == l <= Len(Trace) /\ (TCall \/ TObs \/ Silent \/ TRef \/ TForward \/ TReturn \/ TBad \/ TSkip)
 TraceInit == /\ N = 0 /\ S = 0 /\ B = 0 /\ i = 0 /\ Xi = <<>> /\ rj = <<>> /\ queue = <<>> /\ z = 0 /\ emitted = <<>>
              /\ batches = <<>> /\ seeds = <<>> /\ pc = "idle"
-             /\ l = 1 /\ bad = <<>> /\ cid = 0 /\ ex = <<>> /\ R = 0 /\ refmode = "fn" /\ key = 0 /\ rk = 0 /\ memo = <<>>
+             /\ l = 1 /\ bad = <<>> /\ cid = 0 /\ ex = <<>> /\ R = 0 /\ refmode = "fn" /\ key = 0 /\ rk = 0 /\ memo = <<>> /\ memoR = <<>>
 TraceSpec == TraceInit /\ [][TraceNext]_tvars
 AtEnd == l = Len(Trace) + 1 => JsonSerialize(IOEnv.OUT_FILE, [consumed |-> l - 1, bad |-> bad])
 TBlockOK == pc \in {"fill", "flush", "drain", "done"} => BlockOK
